@@ -118,7 +118,7 @@ def prefix_sites(prog):
     return out
 
 
-def run(ck, prog, only=None, rule="WIDTH", floor=10):
+def run(ck, prog, only=None, rule="WIDTH", floor=10, standalone=False):
     ck.rule(rule, "every length prefix written for a byte-string field of a proof component is wide enough for the length that field has "
                   "in an ordinary legal configuration (widths from the writer's MIR, protocol limits from the compiled constants, "
                   "attainable lengths from a table confirmed by reading); reader widths follow from S1")
@@ -139,6 +139,42 @@ def run(ck, prog, only=None, rule="WIDTH", floor=10):
               f"{need} — {how}", loc=view.loc(b),
               detail=None if ok else f"a {8 * width}-bit prefix holds at most {2 ** (8 * width) - 1}; an honest proof reaches {need} bytes ({how}); "
                                      "the cast truncates the length and the proof no longer parses")
+    if standalone:
+        standalone_fri(ck, prog, rule, lim, only)
     ck.floor(f"{rule}: length prefixes examined", n, floor)
     ck.control(f"{rule}: a 16-bit prefix cannot hold the opened values of a folding-16 FRI layer", not (2 ** 16 > wit[("FriProofLayer", "values")][0]))
     return n
+
+
+def standalone_fri(ck, prog, rule, lim, only):
+    """winter-fri is a public crate of its own: `FriOptions::new` is the only limit on the remainder of a stand-alone FRI proof. The
+    interval engine (E4) evaluates the constructor with unconstrained arguments; the largest `remainder_max_degree` it accepts gives the
+    longest remainder, which the prefix written by `FriProof::write_into` must hold."""
+    if only and "FriProof" not in only:
+        return
+    from ..ranges import Analyzer, top_ty
+    ctor = prog.fn_opt("winter_fri::options::FriOptions::new")
+    if ctor is None:
+        ck.note(f"{rule}: FriOptions::new not found; the stand-alone FRI clause is not decided")
+        return
+    names = [x if isinstance(x, str) else x.get("name") for x in prog.adt_fields("winter_fri::options::FriOptions")]
+    if "remainder_max_degree" not in names:
+        ck.note(f"{rule}: FriOptions has no field remainder_max_degree; the stand-alone FRI clause is not decided")
+        return
+    idx = names.index("remainder_max_degree")
+    an = Analyzer(prog, max_depth=4, opaque=lambda fn: fn.crate != "winter_fri")
+    s = an.analyze(ctor, [top_ty(t, False) for t in ctor.get("inputs")])
+    his = [rv["f"][idx]["hi"] for rv, _ in s.accepts if rv.get("k") == "agg" and rv["f"].get(idx, {}).get("k") == "int"]
+    if not his:
+        ck.note(f"{rule}: no accepting path of FriOptions::new was found; the stand-alone FRI clause is not decided")
+        return
+    max_deg = max(his)
+    sites = [x for x in prefix_sites(prog) if x[1] == "FriProof" and x[2] == "remainder"]
+    for adt, short, name, width, fn, b, view in sites:
+        need = (min(max_deg, 2 ** 40) + 1) * lim["EB_BASE"]
+        ok = width is None or 2 ** (8 * width) > need
+        ck.ob(rule, "prefix:FriProof.remainder:standalone-fri-options", ok,
+              f"FriProof::write_into: the length prefix of `remainder` holds the remainder of every configuration FriOptions::new accepts "
+              f"(largest accepted remainder_max_degree: {max_deg if max_deg < 2 ** 40 else 'unbounded'})", loc=view.loc(b),
+              detail=None if ok else f"FriOptions::new accepts remainder_max_degree up to {max_deg if max_deg < 2 ** 40 else 'usize::MAX'}; already 4095 over a "
+                                     f"{lim['EB_BASE']}-byte field gives a 65536-byte remainder, which a {8 * width}-bit prefix writes as 0")
